@@ -137,6 +137,10 @@ class World:
                 for v in n.outputs:
                     self.reg(v)
                 self.reg(n.graph)
+                # values referenced by device annotations are references of the node too
+                for dc in getattr(n, "device_configurations", ()) or ():
+                    for spec in getattr(dc, "sharding_specs", ()) or ():
+                        self.reg(getattr(spec, "value", None))
                 for attr in list(n.attributes.values()):
                     try:
                         if attr.type == ir.AttributeType.GRAPH and attr.value is not None:
